@@ -603,3 +603,68 @@ func ruleLayRewrite(c *Ctx, r *R) {
 		}
 	}
 }
+
+// LAY-ONCE: an operand is evaluated once.  In the code a compile-case emits, on every
+// path, no child of the node is compiled into the output twice (two segments with the same
+// source, or the same segment appended twice): Go evaluates each operand expression of a
+// statement exactly once, so a call or other side effect inside it must not be repeated.
+func ruleLayOnce(c *Ctx, r *R) {
+	cs, err := c.compileSwitch()
+	if err != nil {
+		r.undecided("compile", "-", err.Error())
+		return
+	}
+	nCases := 0
+	for _, sc := range cs.Cases {
+		if len(sc.Labels) == 0 {
+			continue
+		}
+		label := sc.Labels[0]
+		m := newLayMachine(c)
+		cl, err := m.runCase(cs, label)
+		if err != nil || cl == nil {
+			continue // constructs the layout machine cannot run are judged by the LAY-* rules
+		}
+		nCases++
+		var paths []*layoutPath
+		paths = append(paths, cl.Paths...)
+		for _, it := range cl.Iters {
+			paths = append(paths, it.Exits...)
+		}
+		reported := map[string]bool{}
+		for _, p := range paths {
+			seenSrc := map[string]*atom{}
+			seenID := map[int]bool{}
+			for _, a := range m.live(p) {
+				if a.Seg == nil || a.Seg.Kind != "call" || a.Seg.Src == nil {
+					continue
+				}
+				src := a.Seg.Src
+				for src.Op == "call" && src.Name == "compiler.optimize" && len(src.Args) == 1 {
+					src = src.Args[0]
+				}
+				if src.Op != "call" || (src.Name != "compiler.compile" && src.Name != "compiler.compileAll") {
+					continue
+				}
+				child := src.Args[len(src.Args)-1].String()
+				key := "once " + label + " " + child
+				dup := seenID[a.Seg.ID]
+				if _, ok := seenSrc[child]; ok {
+					dup = true
+				}
+				seenID[a.Seg.ID] = true
+				seenSrc[child] = a
+				if dup && !reported[key] {
+					reported[key] = true
+					r.fail(key, c.Pos(a.Node), "compile(\""+label+"\") emits the code of "+child+" twice on one path: the operand is evaluated twice, so a call or other side effect inside it happens twice (Go evaluates the operands of a statement once) — e.g. `xs[next()] += 1` calls next() twice")
+				}
+			}
+		}
+		if len(reported) == 0 {
+			r.ok("once "+label, "no child compiled twice")
+		}
+	}
+	if nCases < 30 {
+		r.undecided("once", "-", fmt.Sprintf("only %d compile-cases could be laid out", nCases))
+	}
+}
